@@ -1,14 +1,19 @@
 package c03
 
 import (
+	"context"
 	"fmt"
+	"io"
+	"net"
 	"os"
 	"sort"
 	"strconv"
 	"strings"
+	"syscall"
 	"testing"
 	"time"
 
+	red "github.com/redis/go-redis/v9"
 	"github.com/zeromicro/go-zero/core/logx"
 
 	"verifsim/simharness"
@@ -42,9 +47,12 @@ func init() {
 
 // excuseWindow is the virtual time after the last fault that touched an instance (or
 // after the end of an outage) during which the instance may still be answering from
-// its in-process limiter: the ping monitor ticks every 100 ms, go-redis backs off up
-// to 512 ms between attempts, and go-zero's redis breaker remembers failures for 10 s.
-const excuseWindow = 10 * time.Second
+// its in-process limiter.  The ping monitor ticks every 100 ms and go-redis backs off
+// up to 512 ms between attempts, but the pings also have to get through go-zero's
+// redis breaker, which after an outage lets a request pass only with a probability of
+// a few percent per attempt until one succeeded (rejected pings keep its 10 s window
+// full): 60 s make "still cut off" a < 1e-15 event per run instead of a 1e-3 one.
+const excuseWindow = 60 * time.Second
 
 type finding struct {
 	prio  int
@@ -138,6 +146,62 @@ func faultRates(t *simrt.Tape, enabled *bool) simredis.Rates {
 	}
 	return rt
 }
+
+// dialBudget: go-redis counts the failed dials of a client over its whole life and,
+// once they reach its PoolSize (10 x GOMAXPROCS - so at least 10), starts a private
+// re-dial goroutine of its own (pool.tryDial) that the simulator does not own.  To
+// stay clear of it for every GOMAXPROCS, each client sees at most dialBudget refused
+// dials per run; after that an outage shows as connections that are accepted and
+// reset at the first byte (the other common face of an unreachable store).
+const dialBudget = 8
+
+// guardHook routes the dials of one go-redis client to the simulated server and
+// enforces dialBudget.
+type guardHook struct {
+	r     *simrt.Run
+	srv   *simredis.Server
+	fails int
+}
+
+func (h *guardHook) DialHook(next red.DialHook) red.DialHook {
+	dial := h.srv.Hook().DialHook(next)
+	return func(ctx context.Context, network, addr string) (net.Conn, error) {
+		c, err := dial(ctx, network, addr)
+		if err != nil && ctx.Err() == nil {
+			if h.fails >= dialBudget {
+				h.r.Probe("outage-as-reset-connection")
+				return deadConn{}, nil
+			}
+			h.fails++
+		}
+		return c, err
+	}
+}
+
+func (h *guardHook) ProcessHook(next red.ProcessHook) red.ProcessHook { return next }
+
+func (h *guardHook) ProcessPipelineHook(next red.ProcessPipelineHook) red.ProcessPipelineHook {
+	return next
+}
+
+// deadConn is a connection to a dead peer: accepted, reset at the first byte.
+type deadConn struct{}
+
+type deadAddr struct{}
+
+func (deadAddr) Network() string { return "simredis" }
+func (deadAddr) String() string  { return "dead" }
+
+func (deadConn) Read([]byte) (int, error) { return 0, io.EOF }
+func (deadConn) Write([]byte) (int, error) {
+	return 0, &net.OpError{Op: "write", Net: "tcp", Err: syscall.ECONNRESET}
+}
+func (deadConn) Close() error                     { return nil }
+func (deadConn) LocalAddr() net.Addr              { return deadAddr{} }
+func (deadConn) RemoteAddr() net.Addr             { return deadAddr{} }
+func (deadConn) SetDeadline(time.Time) error      { return nil }
+func (deadConn) SetReadDeadline(time.Time) error  { return nil }
+func (deadConn) SetWriteDeadline(time.Time) error { return nil }
 
 func maxTime(a, b time.Time) time.Time {
 	if b.After(a) {
